@@ -8,6 +8,7 @@ import (
 	"encoding/json"
 	"fmt"
 	"math/big"
+	"math/rand"
 	"os"
 	"reflect"
 	"runtime"
@@ -23,6 +24,29 @@ type replay struct {
 }
 
 var rp *replay
+
+// search mode (native only): symbols that the model does not fix are drawn at random and
+// recorded, so that a failing run can be reported with its inputs. Used to look for a concrete
+// witness of a counterexample the solver found under an abstraction (floating point).
+var (
+	searching bool
+	rng       *rand.Rand
+)
+
+func draw() *big.Int {
+	switch rng.Intn(10) {
+	case 0, 1, 2:
+		return big.NewInt(int64(rng.Intn(17)))
+	case 3, 4, 5:
+		return big.NewInt(int64(rng.Intn(1000000)))
+	case 6, 7:
+		k := uint(1 + rng.Intn(64))
+		v := new(big.Int).Lsh(big.NewInt(1), k)
+		v.Add(v, big.NewInt(int64(rng.Intn(9)-4)))
+		return v.And(v, new(big.Int).SetUint64(^uint64(0)))
+	}
+	return new(big.Int).SetUint64(rng.Uint64())
+}
 
 // Trace collects what happened in a native run.
 var (
@@ -64,6 +88,11 @@ func SetReplay(model map[string]string, params map[string]int) {
 func bigOf(name string) *big.Int {
 	load()
 	s, ok := rp.Model[name]
+	if !ok && searching {
+		v := draw()
+		rp.Model[name] = v.String()
+		return v
+	}
 	if !ok {
 		return new(big.Int)
 	}
@@ -87,6 +116,9 @@ func Int(name string) int {
 }
 func Bool(name string) bool {
 	load()
+	if _, ok := rp.Model[name]; !ok && searching {
+		rp.Model[name] = strconv.FormatBool(rng.Intn(2) == 0)
+	}
 	return rp.Model[name] == "true"
 }
 func Big(name string) *big.Int       { return bigOf(name) }
@@ -184,6 +216,7 @@ func RunBatch(registry map[string]func()) (anyFailed bool) {
 		Harness string            `json:"harness"`
 		Model   map[string]string `json:"model"`
 		Params  map[string]int    `json:"params"`
+		Search  int               `json:"search"`
 	}
 	if err := json.Unmarshal(b, &items); err != nil {
 		panic(err)
@@ -195,11 +228,54 @@ func RunBatch(registry map[string]func()) (anyFailed bool) {
 			fmt.Println(`NATIVE-REPORT {"error":"unknown harness ` + it.Harness + `"}`)
 			continue
 		}
+		if it.Search > 0 {
+			if searchNative(it.Harness, f, it.Params, it.Search) {
+				anyFailed = true
+			}
+			continue
+		}
 		if RunNative(it.Harness, f) {
 			anyFailed = true
 		}
 	}
 	return
+}
+
+// searchNative runs a harness on up to n random inputs and reports the first failing run
+// together with its inputs (one NATIVE-REPORT line either way).
+func searchNative(name string, f func(), params map[string]int, n int) bool {
+	rng = rand.New(rand.NewSource(int64(n)*7919 + int64(len(name))))
+	searching = true
+	defer func() { searching = false }()
+	for i := 0; i < n; i++ {
+		SetReplay(map[string]string{}, params)
+		var pan any
+		func() {
+			defer func() {
+				if r := recover(); r != nil {
+					switch r.(type) {
+					case AssertFailed, AssumeFailed:
+					default:
+						pan = r
+					}
+				}
+			}()
+			f()
+		}()
+		if assumeKO || (len(Failed) == 0 && pan == nil) {
+			continue
+		}
+		out := map[string]any{"harness": name, "failed": Failed, "obs": Obs, "assume_failed": false, "searched": i + 1, "model": rp.Model, "regions": Regions}
+		if pan != nil {
+			out["panic"] = fmt.Sprint(pan)
+		}
+		b, _ := json.Marshal(out)
+		fmt.Println("NATIVE-REPORT " + string(b))
+		return true
+	}
+	b, _ := json.Marshal(map[string]any{"harness": name, "failed": nil, "obs": map[string]string{}, "assume_failed": false, "searched": n, "regions": map[string]bool{}})
+	fmt.Println("NATIVE-REPORT " + string(b))
+	return false
 }
 
 // SameFunc reports whether two function values are the same function (the executor compares
